@@ -1,7 +1,7 @@
 #!/usr/bin/env python3-vt
 """regenerate MANIFEST.json from props/*.py (claimed) and properties.jsonl (the rest -> not_applicable)"""
 import json, os, sys, importlib
-sys.path.insert(0, os.path.dirname(os.path.abspath(__file__)))
+sys.path.insert(0, os.path.dirname(os.path.abspath(__file__))); sys.path.insert(0, os.path.join(os.environ.get('BACPYPES_REPO', '/repo'), 'py34'))
 ids = [json.loads(l)['id'] for l in open('properties.jsonl')]
 checks, na = [], []
 for pid in ids:
